@@ -202,13 +202,14 @@ pub enum SearchError {
     Panic(String),
 }
 
-pub fn run_search(board: &Board, tf: &ThreeFold, limit: u64, positional: bool) -> Result<((Option<ChessMove>, Score), u16, u64), SearchError> {
+/// returns ((move, score), max_depth, polls consumed, did the limit expire during the call)
+pub fn run_search(board: &Board, tf: &ThreeFold, limit: u64, positional: bool) -> Result<((Option<ChessMove>, Score), u16, u64, bool), SearchError> {
     let t = CountingTimeout::new(limit);
     let mut e = Engine::default();
     e.positional = positional;
     let r = std::panic::catch_unwind(std::panic::AssertUnwindSafe(|| e.search(board, tf, &t)));
     match r {
-        Ok(x) => Ok((x, e.max_depth, t.polls())),
+        Ok(x) => Ok((x, e.max_depth, t.polls(), t.expired_at.get().is_some())),
         Err(p) => {
             if p.is::<Runaway>() {
                 Err(SearchError::Runaway)
@@ -228,7 +229,7 @@ pub fn profile(board: &Board, tf: &ThreeFold, cap: u64, stop_depth: u64, positio
     let r = tracing::subscriber::with_default(PassObserver, || run_search(board, tf, cap, positional));
     STOP_AT_DEPTH.with(|s| s.set(None));
     let forced = FORCE_EXPIRE.with(|f| f.get());
-    let (result, max_depth, total_polls) = r?;
+    let (result, max_depth, total_polls, _expired) = r?;
     let passes = PASSES.with(|p| p.borrow().clone());
     let mut starts = vec![];
     for (d, polls) in &passes {
